@@ -59,8 +59,8 @@ UNITS = {
             {"impl": "KBucket", "fn": "add_node",
              "closures": [{"at": r"\|n\|", "params": "|n: &NodeInfo|", "ret": "bool", "ensures": "ret == (n.id == node.id)"}],
              "rewrite": [_ANYHOW_EARLY,
-                         (r"self\.nodes\.iter_mut\(\)\.find\(", "verif_iter_mut_find(&mut self.nodes, ", "`v.iter_mut().find(p)` renamed to a shim fn standing for that chain (contract: first element satisfying p, documented std behaviour); the closure stays in place"),
-                         (r"\}\) \{\n\s*\*existing = node;", "}, Ghost(|n: NodeInfo| n.id == node.id)) {\n            *existing = node;", "ghost predicate argument of the shim (specification only)")],
+                         (r"self\s*\.nodes\s*\.iter_mut\(\)\s*\.find\(", "verif_iter_mut_find(&mut self.nodes, ", "`v.iter_mut().find(p)` renamed to a shim fn standing for that chain (contract: first element satisfying p, documented std behaviour); the closure stays in place"),
+                         (r"\}\)\s*\{\n\s*\*existing = node;", "}, Ghost(|n: NodeInfo| n.id == node.id)) {\n            *existing = node;", "ghost predicate argument of the shim (specification only)")],
              "spec": """
     ensures
         kb_add_post(*old(self), *final(self), node, r.is_ok()), // @C02/kbucket/known_peer_refreshed_in_place_unknown_appended_if_room_else_refused
@@ -68,7 +68,7 @@ UNITS = {
             {"impl": "KBucket", "fn": "remove_node",
              "closures": [{"at": r"\|n\|", "params": "|n: &NodeInfo|", "ret": "bool", "ensures": "ret == (n.id != *node_id)"}],
              "rewrite": [(r"&n\.id != node_id", "n.id != *node_id", "comparison of two references written as comparison of the referents (`impl PartialEq<&B> for &A` delegates to the referents)"),
-                         (r"self\.nodes\.retain\(", "verif_retain(&mut self.nodes, ", "`v.retain(p)` renamed to a shim fn standing for that call (contract: keeps exactly the elements satisfying p, in order)"),
+                         (r"self\s*\.nodes\s*\.retain\(", "verif_retain(&mut self.nodes, ", "`v.retain(p)` renamed to a shim fn standing for that call (contract: keeps exactly the elements satisfying p, in order)"),
                          (r"\}\);", "}, Ghost(|n: NodeInfo| n.id != *node_id));", "ghost predicate argument of the shim (specification only)")],
              "spec": """
     ensures
@@ -1044,5 +1044,123 @@ UNITS["select"] = {
         "ASSUMED: the trust provider answers as a function of the node id during one selection; xor_distance is a function of (key, id); DhtKey::distance is byte-wise XOR (Kani c02_distance_is_xor); derived Clone of NodeInfo",
         "ASSUMED shim contract: xs.iter().filter_map(f).collect() yields the Some-results in order; ASSUMED contract of the outlined tail (sort_by permutes and orders by the comparator; into_iter().take(n).map().collect() keeps the first min(n, len) nodes) -- text moved verbatim, pinned by hash",
         "struct shims: TrustAwarePeerSelector's Arc<T> provider is a ghost function; NodeInfo keeps only `id`",
+    ],
+}
+
+UNITS["ratelim"] = {
+    "property": "C14",
+    "src": "src/rate_limit.rs",
+    "spec": "verus/ratelim.spec.rs",
+    "preludes": ["verus/float.spec.rs"],
+    "shims": {
+        "EngineConfig": (None, {"window": "Duration", "max_requests": "u32", "burst_size": "u32"}),
+        "Engine": (None, {"cfg": "EngineConfig"}),
+    },
+    "items": [
+        {"impl": "Engine", "fn": "try_consume_key",
+         "block": {"name": "verif_critical_section_key", "of": "Engine::try_consume_key",
+                   "sig": "fn verif_critical_section_key(&self, map: &mut LruCache<K, Bucket>, key: &K) -> bool",
+                   "why": "`map` stands for the LRU map behind the parking_lot RwLock write guard acquired by the first statement"},
+         "drop": [r"let mut map = self\.keyed\.write\(\);\n"],
+         "rewrite": [_F64_CAST],
+         "spec": """
+    ensures
+        other_keys_untouched(old(map)@, final(map)@, *key), // @C14/engine/different_keys_never_consume_each_others_budget
+        final(map)@.dom().contains(*key),
+        old(map)@.dom().contains(*key) ==> bucket_step(old(map)@[*key], self.cfg, final(map)@[*key], r), // @C14/engine/a_known_key_consumes_from_its_own_bucket
+        !old(map)@.dom().contains(*key) ==> exists|b0: Bucket| is_fresh(b0, f_of_nat(self.cfg.burst_size as nat)) && bucket_step(b0, self.cfg, final(map)@[*key], r), // @C14/engine/a_new_key_starts_with_the_burst_allowance
+"""},
+    ],
+    "paired_kani": ["c14_try_consume_contract"],
+    "search_test": "verif_search_c14",
+    "trusted": [
+        "block outlining: the critical section of Engine::try_consume_key (statements under the parking_lot RwLock write guard) is verified as a function of the guarded map; the lock-acquisition statement is dropped; that the guard serialises callers is the contract of parking_lot::RwLock (assumed)",
+        "ASSUMED dependency contract: lru::LruCache get_mut / put behave as a finite map below the 100k-key capacity (eviction not modelled); Clone of the key type returns an equal value",
+        "Bucket::try_consume / Bucket::new are the uninterpreted relations bucket_step / is_fresh here; their arithmetic content is proved on the real functions by Kani (c14_try_consume_contract, c14_bucket_new_contract)",
+    ],
+}
+
+UNITS["seq"]["items"].append(
+        {"impl": "PeerCounter", "fn": "cleanup_old_sequences",
+         "closures": [{"at": r"\|entry\|", "params": "|entry: &SequenceEntry|", "ret": "bool", "ensures": "ret == (entry.timestamp >= cutoff_time)"}],
+         "rewrite": [(r"self\.sequence_history\s*\.retain\(", "verif_retain(&mut self.sequence_history, ", "`v.retain(p)` renamed to a shim fn standing for that call (contract: keeps exactly the elements satisfying p, in order)"),
+                     (r"\}\);", "}, Ghost(|e: SequenceEntry| e.timestamp >= cutoff_time));", "ghost predicate argument of the shim (specification only)")],
+         "spec": """
+    ensures
+        final(self).last_valid_sequence == old(self).last_valid_sequence && final(self).current_sequence == old(self).current_sequence, // @C12/seq/cleanup_keeps_the_high_water_mark
+        final(self).sequence_history@ == old(self).sequence_history@.filter(|e: SequenceEntry| e.timestamp >= cutoff_time), // @C12/seq/cleanup_drops_exactly_the_entries_older_than_the_cutoff
+"""})
+
+_LOGM2 = ["tracing::warn!", "tracing::trace!", "tracing::debug!", "tracing::info!", "warn!", "debug!", "info!", "trace!"]
+UNITS["pending"] = {
+    "property": "C04",
+    "src": "src/dht_network_manager.rs",
+    "spec": "verus/pending.spec.rs",
+    "shims": {
+        "DhtNetworkMessage": (None, {"message_id": "String", "source": "PeerId", "result": "Option<DhtNetworkResult>"}),
+        "DhtOperationContext": (None, {"peer_id": "PeerId", "contacted_nodes": "Vec<PeerId>", "response_tx": "Option<oneshot::Sender<(PeerId, DhtNetworkResult)>>"}),
+        "PendingRequest": ("src/network.rs", {"response_tx": "tokio::sync::oneshot::Sender<Vec<u8>>", "expected_peer": "String"}),
+        "RequestResponseEnvelope": ("src/network.rs", {"message_id": "String", "is_response": "bool", "payload": "Vec<u8>"}),
+    },
+    "consts": {"MAX_ACTIVE_REQUESTS": ("src/network.rs", r"([0-9_]+)")},
+    "items": [
+        {"impl": "DhtNetworkManager", "fn": "handle_dht_response", "drop_macros": _LOGM2, "erase_errors": ["P2PError::"],
+         "block": {"name": "verif_critical_section_dht_response", "of": "DhtNetworkManager::handle_dht_response",
+                   "sig": "fn verif_critical_section_dht_response(&self, ops: &mut HashMap<String, DhtOperationContext>, message: &DhtNetworkMessage, sender: &PeerId) -> Result<()>",
+                   "no_await": True,
+                   "why": "`async fn` without any `.await` (checked); `ops` stands for the map behind the std Mutex guard taken by `self.active_operations.lock()`"},
+         "drop": [r"let Ok\(mut ops\) = self\.active_operations\.lock\(\) else \{\s*warn!\(\"active_operations mutex poisoned\"\);\s*return Ok\(\(\)\);\s*\};\n"],
+         "rewrite": [(r"ops\.get_mut\(message_id\)", "verif_get_mut(ops, message_id)", "callee renamed to a shim fn standing for HashMap::get_mut (contract: documented std behaviour)")],
+         "spec": """
+    ensures
+        others_untouched(old(ops)@, final(ops)@, message.message_id), // @C04/dht/a_reply_never_affects_another_pending_request
+        final(ops)@.contains_key(message.message_id) == old(ops)@.contains_key(message.message_id),
+        old(ops)@.contains_key(message.message_id) ==> ({
+            let c0 = old(ops)@[message.message_id]; let c1 = final(ops)@[message.message_id];
+            &&& c1.peer_id == c0.peer_id && c1.contacted_nodes == c0.contacted_nodes
+            &&& (c1.response_tx != c0.response_tx) ==> (c0.response_tx.is_some() && c1.response_tx.is_none() && message.result.is_some() && authorized(c0, *sender)) // @C04/dht/completed_only_by_a_reply_with_its_id_from_the_contacted_peer
+            &&& (c0.response_tx.is_some() && message.result.is_some() && authorized(c0, *sender)) ==> c1.response_tx.is_none() // @C04/dht/a_matching_reply_consumes_the_waiting_sender_once
+        }),
+"""},
+        {"impl": "TransportHandle", "fn": "start_message_receiving_system", "src": "src/transport_handle.rs", "drop_macros": _LOGM2,
+         "block": {"name": "verif_critical_section_rr_reply", "of": "TransportHandle::start_message_receiving_system",
+                   "start": r"&& envelope\.is_response\s*\{",
+                   "sig": "fn verif_critical_section_rr_reply(reqs: &mut HashMap<String, PendingRequest>, envelope: RequestResponseEnvelope, transport_peer_id: String)",
+                   "why": "the `/rr/` reply branch of the receive loop; `reqs` stands for the map behind `active_requests.write().await`"},
+         "drop": [r"let mut reqs = active_requests\.write\(\)\.await;\n"],
+         "rewrite": [(r"\bcontinue;", "return;", "every exit of the outlined block continues the enclosing receive loop: written as `return` of the outlined fn"),
+                     (r"reqs\.get\(&envelope\.message_id\)", "verif_get(reqs, &envelope.message_id)", "callee renamed to the HashMap::get shim"),
+                     (r"reqs\.remove\(&envelope\.message_id\)", "verif_remove(reqs, &envelope.message_id)", "callee renamed to the HashMap::remove shim")],
+         "spec": """
+    ensures
+        others_untouched(old(reqs)@, final(reqs)@, envelope.message_id), // @C04/rr/a_reply_never_affects_another_pending_request
+        final(reqs)@.contains_key(envelope.message_id) == (old(reqs)@.contains_key(envelope.message_id)
+            && old(reqs)@[envelope.message_id].expected_peer@ != transport_peer_id@), // @C04/rr/completed_and_removed_exactly_when_the_id_matches_and_the_origin_is_the_expected_peer
+        final(reqs)@.contains_key(envelope.message_id) ==> final(reqs)@[envelope.message_id] == old(reqs)@[envelope.message_id],
+"""},
+        {"impl": "TransportHandle", "fn": "send_request", "src": "src/transport_handle.rs", "erase_errors": ["P2PError::"],
+         "block": {"name": "verif_critical_section_register", "of": "TransportHandle::send_request",
+                   "start": r"let started_at = Instant::now\(\);\s*\{",
+                   "sig": "fn verif_critical_section_register(reqs: &mut HashMap<String, PendingRequest>, message_id: String, tx: oneshot::Sender<Vec<u8>>, peer_id: &PeerId) -> Result<()>",
+                   "append": "Ok(())",
+                   "why": "the registration block of send_request (cap check + insert); a `return Err(..)` inside it leaves send_request, normal completion of the block is the appended `Ok(())`"},
+         "drop": [r"let mut reqs = self\.active_requests\.write\(\)\.await;\n"],
+         "rewrite": [(r"\bMAX_ACTIVE_REQUESTS\b", "@MAX_ACTIVE_REQUESTS@usize", "crate-private const -> its value, re-derived from the const definition on every run"),
+                     (r"reqs\.len\(\)", "verif_len(reqs)", "callee renamed to the HashMap::len shim"),
+                     (r"reqs\.insert\(", "verif_insert(reqs, ", "callee renamed to the HashMap::insert shim"),
+                     (r"peer_id\.to_string\(\)", "verif_to_string(peer_id)", "callee renamed to a shim fn standing for <String as ToString>::to_string (contract: same character sequence)")],
+         "spec": """
+    ensures
+        r.is_ok() == (old(reqs)@.len() < @MAX_ACTIVE_REQUESTS@), // @C04/rr/registration_is_refused_at_the_cap
+        r.is_ok() ==> final(reqs)@.len() <= @MAX_ACTIVE_REQUESTS@ && final(reqs)@.contains_key(message_id)
+            && final(reqs)@[message_id].expected_peer@ == peer_id@ && others_untouched(old(reqs)@, final(reqs)@, message_id), // @C04/rr/pending_requests_never_exceed_the_cap_and_expect_the_contacted_peer
+        r.is_err() ==> final(reqs)@ == old(reqs)@, // @C04/rr/a_refused_request_leaves_nothing_pending
+"""},
+    ],
+    "paired_kani": [],
+    "trusted": [
+        "block outlining: three critical sections (handle_dht_response body, /rr/ reply branch, send_request registration block) verified as functions of the guarded maps; lock-acquisition statements dropped; that the guards serialise callers is the contract of std::sync::Mutex / tokio::sync::RwLock (assumed)",
+        "ASSUMED shim contracts: HashMap<String, V> get / get_mut / remove / insert / len behave as a finite map; [T]::contains is membership by ==; String ==, clone, to_string preserve the character sequence; oneshot::Sender::send consumes the sender (opaque)",
+        "logging macro statements dropped; error payloads dropped; `continue` of the receive loop written as `return` in the outlined /rr/ block; `Ok(())` appended to the registration block",
     ],
 }
